@@ -58,6 +58,10 @@ func c15List(x *mcx.Exec, label string, max int) []any {
 		}
 		l = append(l, c15Param(c15Alts[a], fmt.Sprintf("%s%d", label, i)))
 	}
+	// a fixed third element behind a full list (the third and later entries of a list)
+	if len(l) == max && label == "path" && x.Choose(mcx.INPUT, 2, label+"[third]") == 1 {
+		l = append(l, c15Param("header:limit", label+"Third"), J{"$ref": "#/parameters/sp"})
+	}
 	return l
 }
 
